@@ -502,15 +502,32 @@ func (c *Ctx) exec(fr *frame, in ssa.Instruction) {
 		}
 		c.set(fr, x, &ClosureV{fn: x.Fn.(*ssa.Function), env: env})
 	case *ssa.MakeSlice:
-		n := c.concretizeInt(c.get(fr, x.Len).(*Term), "make-slice-len")
-		cp := c.concretizeInt(c.get(fr, x.Cap).(*Term), "make-slice-cap")
-		if n < 0 || cp < n {
-			c.goPanic("makeslice: len out of range", nil)
-		}
-		if cp > c.maxAlloc {
-			c.unsupported(fmt.Sprintf("make slice of %d elements exceeds engine cap", cp))
-		}
 		elem := under(x.Type()).(*types.Slice).Elem()
+		lenT, capT := c.indexTerm(c.get(fr, x.Len), x.Len.Type()), c.indexTerm(c.get(fr, x.Cap), x.Cap.Type())
+		c.trackAlloc(capT, elem)
+		var n, cp int64
+		if c.allocTracking && !capT.IsConst() && c.branch(c.tb.Cmp(OpBvSlt, c.tb.Const(uint64(c.maxAlloc), 64), capT)) {
+			// Abstraction, only while a harness measures allocation sizes (verifMaxAlloc): an allocation larger
+			// than the engine cap is represented by cap+1 elements; its true size is kept in the tracked term.
+			c.noteFn("intrinsic:large-allocation-abstracted-to-" + fmt.Sprint(c.maxAlloc+1) + "-elements")
+			if lenT != capT {
+				c.unsupported("large symbolic make with len != cap")
+			}
+			n, cp = c.maxAlloc+1, c.maxAlloc+1
+		} else {
+			if !capT.IsConst() && c.branch(c.tb.Cmp(OpBvSlt, c.tb.Const(uint64(c.maxAlloc), 64), capT)) {
+				// a symbolic size above the enumeration cap: do not enumerate 2^k values
+				c.unsupported(fmt.Sprintf("make slice with symbolic size above the enumeration cap %d", c.maxAlloc))
+			}
+			n = c.concretizeInt(lenT, "make-slice-len")
+			cp = c.concretizeInt(capT, "make-slice-cap")
+			if n < 0 || cp < n {
+				c.goPanic("makeslice: len out of range", nil)
+			}
+			if cp > 1<<20 {
+				c.unsupported(fmt.Sprintf("make slice of %d elements exceeds engine hard cap", cp))
+			}
+		}
 		o := c.newArrayObj(elem, int(cp))
 		c.set(fr, x, SliceV{base: PtrV{obj: o}, off: 0, len: int(n), cap: int(cp)})
 	case *ssa.MakeMap:
@@ -1108,3 +1125,20 @@ func (c *Ctx) sliceOp(fr *frame, x *ssa.Slice) Value {
 
 // ---------- floats helper ----------
 var _ = math.Abs
+
+// trackAlloc records the byte size of an allocation while verifMaxAlloc is measuring.
+func (c *Ctx) trackAlloc(n *Term, elem types.Type) {
+	if !c.allocTracking {
+		return
+	}
+	sz := c.shared.sizes.Sizeof(elem)
+	if sz <= 0 {
+		sz = 1
+	}
+	bytesT := c.tb.Bin(OpBvMul, n, c.tb.Const(uint64(sz), 64))
+	if c.allocMaxTerm == nil {
+		c.allocMaxTerm = bytesT
+		return
+	}
+	c.allocMaxTerm = c.tb.Ite(c.tb.Cmp(OpBvUlt, c.allocMaxTerm, bytesT), bytesT, c.allocMaxTerm)
+}
